@@ -508,17 +508,21 @@ pub fn run_scenario(scn: &Scn, seen: &mut Seen) -> Outcome {
         c.close();
     }
     let joined = run.join(Duration::from_secs(12));
-    let log = verif::log_since(0);
+    let full_log = verif::log_since(0);
     verif::stop_recording();
+    // fault oracles look at the history up to the stop command: during shutdown workers exit on purpose and the
+    // accept thread may see their channels closed, which is not a fault
+    let stop_at = full_log.iter().position(|r| matches!(&r.ev, Ev::User { kind: "cmd_stop", .. })).unwrap_or(full_log.len());
+    let log: Vec<Rec> = full_log[..stop_at].to_vec();
     verif::set_abort_spin(false);
     verif::set_failpoints(&[], 0);
     let gone = engine::wait_threads_gone(baseline_threads, Duration::from_secs(12));
 
     // ---- history oracles
-    if resolved && !log.iter().any(|r| matches!(r.ev, Ev::AcceptExit)) {
+    if resolved && !full_log.iter().any(|r| matches!(r.ev, Ev::AcceptExit)) {
         fails.push(fail(
             "C08:accept-thread-died",
-            format!("the accept thread never reported a regular exit (it panicked): last events {:?}", monitor::tail(&log, 12)),
+            format!("the accept thread never reported a regular exit (it panicked): last events {:?}", monitor::tail(&full_log, 12)),
         ));
     }
     let accept_thread = log.iter().find_map(|r| if let Ev::LoopIdle(_) = &r.ev { Some(r.thread) } else { None });
